@@ -167,6 +167,17 @@ func drawWorld06(r *rng.R) *Case {
 					t.Calls = append(t.Calls, Call{Kind: KRun, Model: mi, Inputs: w2, Ref: -1})
 				}
 				p.Ref = prev
+				if r.Chance(1, 4) {
+					// the piece is first attempted and aborted (the operator, or something after it, fails once the
+					// recurrent node has run), then retried by the caller with the very same tensors
+					att := p
+					att.Inputs = cloneSet(p.Inputs)
+					att.Fault = &OpFault{Node: rm.nNodes - 1, When: []string{"after", "after", "apply", "validate"}[r.Intn(4)], Mode: []string{"error", "panic"}[r.Intn(2)]}
+					att.Note = "aborted attempt"
+					t.Calls = append(t.Calls, att)
+					p.RetryOf = len(t.Calls)
+					p.Note = "retry with the same tensors"
+				}
 				t.Calls = append(t.Calls, p)
 				prev = len(t.Calls) - 1
 				sess.Pieces = append(sess.Pieces, prev)
@@ -252,7 +263,7 @@ func judge06(c *Case, wr *worldRun, rc *refCache) []verdict {
 // Worker06: every split point of short sequences for each operator kind first, then seeded session worlds.
 func Worker06(cfg Config) *evid.Stats {
 	st := evid.NewStats()
-	rn := &runner{cfg: cfg, st: st, rc: &refCache{m: map[uint64]*refResult{}}, vcap: 6}
+	rn := &runner{cfg: cfg, st: st, rc: &refCache{m: map[uint64]*refResult{}}, vcap: 6, pristineEvery: 1 << 62}
 	one := func(c *Case) {
 		wr := execute(c, nil, false, false)
 		vs := judge06(c, wr, rn.rc)
@@ -285,6 +296,7 @@ func Worker06(cfg Config) *evid.Stats {
 		if len(rn.rc.m) > 20000 {
 			rn.rc.m = map[uint64]*refResult{}
 		}
+		rn.remember(c)
 	}
 	// enumerated: kind x seq 2..6 x every single cut x batch 1..2, plus every pair of cuts for seq 4..5
 	idx := 0
